@@ -19,7 +19,7 @@ import re
 import sys
 import time
 
-LINE_POOL = ["alpha", "", "cr\rinside", "dos line ending\r", "žluťoučký kůň", "日本語のテキスト", "😀 emoji", "  padded  ", "tab\there", "x" * 300, "0", "-1",
+LINE_POOL = ["alpha", "", "cr\rinside", "dos line ending\r", "more than a page " + "p" * 5000, "more than a pipe buffer " + "q" * 70000, "žluťoučký kůň", "日本語のテキスト", "😀 emoji", "  padded  ", "tab\there", "x" * 300, "0", "-1",
              "a,b,c", "quote\"s", "ěščřžýáíé", "long " * 40, "end"]
 
 
@@ -154,6 +154,38 @@ def run_workload(case, d, log, label_child=None):
     kids = []
     style = case.get("fork_style", "os.fork")
     K = case["children"]
+    shared_it = None
+    if case.get("iter_across_fork") is not None and case["variant"] != "MapAccessFile" and len(lines) > 3:
+        # an iteration that was started before the fork (a header consumed in the parent) and is continued afterwards in
+        # every process: each continuation yields the remaining lines
+        unwrap0 = (lambda r: r.s) if "Record" in case["variant"] else (lambda r: r)
+        k0 = 1 + case["iter_across_fork"] % (len(lines) - 2)
+        it0 = iter(obj)
+        head = [unwrap0(next(it0)) for _ in range(k0)]
+        log("reads_done", who="parent-iterator-head", n=k0, bad=[] if head == lines[:k0] else [["iterator head", repr(lines[:k0])[:120], repr(head)[:120]]],
+            recovered=0)
+        shared_it = (it0, k0, unwrap0)
+
+    def continue_iteration(who):
+        if shared_it is None:
+            return
+        it0, k0, unwrap0 = shared_it
+        try:
+            rest = [unwrap0(x) for x in it0]
+        except Exception as e:
+            if "injected" in str(e):
+                # a failpoint of this run fired inside the iteration: a generator cannot be resumed after an exception, the
+                # caller's retry is exercised by the random reads
+                try:
+                    obj.open()      # the caller's ordinary reaction to a failed read (as in do_reads)
+                except Exception:
+                    pass
+                log("reads_done", who=who + "-iterator-rest", n=0, bad=[], recovered=1)
+                return
+            rest = f"raised {type(e).__name__}: {e}"
+        bad = [] if rest == lines[k0:] else [[f"rest of an iteration started before the fork (after {k0} lines)", repr(lines[k0:])[:120],
+                                               repr(rest)[:120]]]
+        log("reads_done", who=who + "-iterator-rest", n=len(lines) - k0, bad=bad, recovered=0)
     gate = None
     side = None
     if case.get("thread_reads_during_fork") is not None:
@@ -193,8 +225,12 @@ def run_workload(case, d, log, label_child=None):
             if sub == 0:
                 child_main(i, 1)
                 os._exit(0)
+        if i % 2 == 0:
+            continue_iteration(f"{'child' if depth == 0 else 'grandchild'}{i}")
         do_reads(obj, case, lines, f"{'child' if depth == 0 else 'grandchild'}{i}", nreads, case["seed"] * 101 + i * 7 + depth, log,
                  first=None if last_parent is None else last_parent + 1)
+        if i % 2 == 1:
+            continue_iteration(f"{'child' if depth == 0 else 'grandchild'}{i}")
         if sub:
             os.waitpid(sub, 0)
 
@@ -223,7 +259,9 @@ def run_workload(case, d, log, label_child=None):
         stop_side.set()
         side.join(30)
         instr.S.gates.pop("T", None)
-    do_reads(obj, case, lines, "parent-concurrent", nreads, case["seed"] + 2, log)
+    do_reads(obj, case, lines, "parent-concurrent", nreads // 2, case["seed"] + 2, log)
+    continue_iteration("parent")
+    do_reads(obj, case, lines, "parent-concurrent", nreads - nreads // 2, case["seed"] + 4, log)
     codes = []
     for k in kids:
         if style == "mp":
@@ -280,7 +318,8 @@ _OPENRES = re.compile(r"=\s*(\d+)<([^>]*)>\s*$")
 
 
 def check_trace(trace_path, data_path):
-    """Returns (violations, stats). A violation = lseek/read/pread64 on the data file via an inherited descriptor."""
+    """Returns (violations, stats). A violation = lseek/read/readv on the data file via an inherited descriptor (the calls
+    that use or move the shared position)."""
     data_path = os.path.realpath(data_path)
     group = {}          # tid -> process id (thread group leader as seen here)
     own = {}            # process -> set of fds it opened itself on the data file
@@ -341,7 +380,12 @@ def check_trace(trace_path, data_path):
             elif name in ("lseek", "read", "pread64", "readv", "preadv"):
                 stats["syscalls_on_data_file"] += 1
                 stats["processes_reading_data_file"].add(g)
-                if fd not in own[g]:
+                if name in ("pread64", "preadv"):
+                    # positional reads neither use nor move the position of the open file description: harmless on an
+                    # inherited descriptor (counted, not judged)
+                    stats["positional_reads_on_inherited_descriptors"] = stats.get("positional_reads_on_inherited_descriptors", 0) + \
+                        (fd not in own[g])
+                elif fd not in own[g]:
                     if len(viol) < 5:
                         viol.append(f"process {g} ({'the parent' if g == first else 'a forked child'}) issued "
                                     f"{rest[:80]} on a descriptor it did not open itself (inherited open file description)")
